@@ -3,6 +3,7 @@ package fakes
 import (
 	"context"
 	"fmt"
+	"strings"
 	"sync"
 	"time"
 
@@ -223,7 +224,14 @@ func (d *Dest) replyLoop(ctx context.Context, st *dstStream, run int) {
 		for _, r := range recs {
 			e := forceErr
 			if e == "" {
-				if o, ok := d.Cfg.Outcomes[r.tag]; ok && o != "ok" {
+				o, ok := d.Cfg.Outcomes[r.tag]
+				if !ok {
+					// pieces inherit the outcome scripted for their origin ("<origin>/*")
+					if j := strings.Index(r.tag, "/"); j > 0 {
+						o, ok = d.Cfg.Outcomes[r.tag[:j]+"/*"]
+					}
+				}
+				if ok && o != "ok" {
 					e = o
 				}
 			}
